@@ -62,6 +62,8 @@ pub enum TextMut {
     NonAscii { i: usize, n: usize },
     /// give occurrence i a content of `n` short lines (texts with tens of thousands of LINES but few fields)
     ManyLines { i: usize, n: usize },
+    /// the text starts directly at the first field marker (no line break in front of it)
+    NoLeadingNewline,
 }
 
 #[derive(Serialize, Deserialize, Clone, Debug, PartialEq)]
@@ -115,6 +117,8 @@ pub struct Spec {
     pub text: Option<Vec<Occ>>,
     #[serde(default)]
     pub crlf: bool,
+    #[serde(default)]
+    pub no_leading_newline: bool,
     pub consumers: usize,
     pub script: Vec<Step>,
     pub drain: bool,
@@ -203,11 +207,12 @@ fn digits_prefix(t: &str) -> &str {
     &t[..n]
 }
 
-fn apply_text_muts(occs: &mut Vec<Occ>, muts: &[TextMut], crlf: &mut bool) {
+fn apply_text_muts(occs: &mut Vec<Occ>, muts: &[TextMut], crlf: &mut bool, no_lead: &mut bool) {
     for m in muts {
         let n = occs.len();
         match m {
             TextMut::Crlf => *crlf = true,
+            TextMut::NoLeadingNewline => *no_lead = true,
             _ if n == 0 => {}
             TextMut::Dup { i, j } => {
                 let o = occs[i % n].clone();
@@ -918,6 +923,9 @@ impl Engine for C16 {
             // mostly a few hundred fields; sometimes more than a thousand (tens of kilobytes)
             text_muts.push(TextMut::Repeat { times: if w.chance(1, 4) { 30 + w.below(34) } else { 3 + w.below(12) } });
         }
+        if w.chance(1, 6) {
+            text_muts.push(TextMut::NoLeadingNewline);
+        }
         // one run in eight carries non-ASCII content (1 … 40 two-byte characters, sometimes in two fields)
         if w.chance(1, 8) {
             for _ in 0..1 + w.below(2) {
@@ -993,6 +1001,7 @@ impl Engine for C16 {
             text_muts,
             text: None,
             crlf: false,
+            no_leading_newline: false,
             consumers,
             script,
             drain: true,
@@ -1065,8 +1074,10 @@ impl Engine for C16 {
                 }
                 _ => {}
             }
-            apply_text_muts(&mut occs, &spec2.text_muts, &mut crlf);
+            let mut no_lead = spec2.no_leading_newline;
+            apply_text_muts(&mut occs, &spec2.text_muts, &mut crlf, &mut no_lead);
             let text = render(&occs, crlf);
+            let text = if no_lead { text.trim_start_matches(['\r', '\n']).to_string() } else { text };
             let Some(expected) = ref_tokenise(&text) else {
                 out.discard = Some("mutated text not segmentable by the reference tokeniser".into());
                 return (out, None);
@@ -1081,6 +1092,7 @@ impl Engine for C16 {
             resolved.text = Some(occs.clone());
             resolved.text_muts = vec![];
             resolved.crlf = crlf;
+            resolved.no_leading_newline = no_lead;
 
             // operations phase A, then the paired phase B under a second hash entropy
             let a = run_phase(&ctx2, spec2.e_h, &text, &expected, &spec2, 0);
@@ -1204,6 +1216,11 @@ impl Engine for C16 {
             if spec.crlf {
                 let mut s = spec.clone();
                 s.crlf = false;
+                v.push(s);
+            }
+            if spec.no_leading_newline {
+                let mut s = spec.clone();
+                s.no_leading_newline = false;
                 v.push(s);
             }
             let m = t.len();
